@@ -355,6 +355,9 @@ pub fn replay_rows<P: PT, C: Coll<P>>(
     let mut pre: HashMap<String, (Value, Value, i64, bool)> = HashMap::new();
     let mut line = String::new();
     loop {
+        // the watchdog times the calls of the code under test and the observation of their results only, not
+        // the harness's own reading, parsing and bookkeeping between two rows
+        crate::model::watch_end();
         line.clear();
         if input.read_line(&mut line).unwrap() == 0 {
             break;
